@@ -1,35 +1,71 @@
 ---------------------------- MODULE TraceP8 ----------------------------
-EXTENDS Integers, Sequences, FiniteSets, TLC, Json, IOUtils, TLCExt, SequencesExt
+(* Acceptor for a written .p8 text cart (C16: the on-disk text is what the format prescribes for
+   the memory bytes; C03: write / read round trip).
+   The cart's memory is given as a pattern plus overrides: byte at address a =
+   ov[ToString(a)] if present else (a * pat[1] + (a \div 64) * 13 + pat[2]) % 256
+   (addresses 0x0000..0x42ff in memory-map order gfx, map, gff, music, sfx); the label, when
+   present, the same way over 0..8191.
+   Trace record: {pat, ov, lpat ([] = no label), lov, code, version, header: [l1, l2],
+     rows: {gfx, label, gff, map, sfx, music} (lists of row strings as found in the file),
+     lua (code points of the __lua__ section text),
+     rb: {diff: [[addr, val]], code, labelPresent, labelDiff: [[i, val]], version}, rewriteSame, focus}. *)
+EXTENDS P8sciiTable, Integers, TLCExt
 Traces == JsonDeserialize(IOEnv.TRACE_FILE)
 HexCh == <<"0","1","2","3","4","5","6","7","8","9","a","b","c","d","e","f">>
 H(d) == HexCh[d + 1]
 HB(b) == H(b \div 16) \o H(b % 16)
 GB(b) == H(b % 16) \o H(b \div 16)
 Cat(f, n) == FoldLeft(LAMBDA acc, k : acc \o f[k], "", [k \in 1..n |-> k])
-\* mem is 1-based: mem[a+1] = byte at address a
-GfxRow(mem, base, r) == Cat([k \in 1..64 |-> GB(mem[base + r * 64 + k])], 64)
-PlainRow(mem, base, r, n) == Cat([k \in 1..n |-> HB(mem[base + r * n + k])], n)
-Note(lsb, msb) == HB(lsb % 64) \o H((msb \div 128) * 8 + (msb % 2) * 4 + (lsb \div 64)) \o H((msb \div 2) % 8) \o H((msb \div 16) % 8)
-SfxRow(mem, r) == LET b == 12800 + r * 68 IN
-   HB(mem[b + 65]) \o HB(mem[b + 66]) \o HB(mem[b + 67]) \o HB(mem[b + 68]) \o
-   Cat([k \in 1..32 |-> Note(mem[b + 2 * k - 1], mem[b + 2 * k])], 32)
-MusRow(mem, r) == LET b == 12544 + r * 4 b0 == mem[b+1] b1 == mem[b+2] b2 == mem[b+3] b3 == mem[b+4] IN
-   HB((b0 \div 128) + 2 * (b1 \div 128) + 4 * (b2 \div 128)) \o " " \o HB(b0 % 128) \o HB(b1 % 128) \o HB(b2 % 128) \o HB(b3 % 128)
 VARIABLES tid, sec, r, verdict
 vars == <<tid, sec, r, verdict>>
-T == Traces[tid]
-Secs == <<"gfx", "gff", "map", "sfx", "music">>
-NRows == [s \in {"gfx", "gff", "map", "sfx", "music"} |-> CASE s = "gfx" -> 128 [] s = "gff" -> 2 [] s = "map" -> 32 [] s = "sfx" -> 64 [] s = "music" -> 64]
-Exp(s, k) == CASE s = "gfx" -> GfxRow(T.mem, 0, k) [] s = "gff" -> PlainRow(T.mem, 12288, k, 128)
-              [] s = "map" -> PlainRow(T.mem, 8192, k, 128) [] s = "sfx" -> SfxRow(T.mem, k) [] s = "music" -> MusRow(T.mem, k)
-Init == tid \in 1..Len(Traces) /\ sec = 1 /\ r = 0 /\ verdict = "run"
-Step == /\ verdict = "run"
-        /\ IF sec > Len(Secs) THEN verdict' = "ok" /\ UNCHANGED <<tid, sec, r>>
-           ELSE LET s == Secs[sec] IN
-             IF r >= NRows[s] THEN sec' = sec + 1 /\ r' = 0 /\ UNCHANGED <<tid, verdict>>
-             ELSE IF Len(T.rows[s]) # NRows[s] THEN verdict' = "rowcount-" \o s /\ UNCHANGED <<tid, sec, r>>
-             ELSE IF T.rows[s][r + 1] # Exp(s, r) THEN verdict' = "row-" \o s /\ UNCHANGED <<tid, sec, r>>
-             ELSE r' = r + 1 /\ UNCHANGED <<tid, sec, verdict>>
+TR == Traces[tid]
+Mem(a) == LET k == ToString(a) IN IF k \in DOMAIN TR.ov THEN TR.ov[k] ELSE (a * TR.pat[1] + (a \div 64) * 13 + TR.pat[2]) % 256
+Lab(a) == LET k == ToString(a) IN IF k \in DOMAIN TR.lov THEN TR.lov[k] ELSE (a * TR.lpat[1] + (a \div 64) * 13 + TR.lpat[2]) % 256
+HasLabel == TR.lpat # <<>>
+\* memory map
+GFX == 0   MAPB == 8192   GFF == 12288   MUS == 12544   SFX == 12800   TOP == 17152
+GfxRow(k) == Cat([j \in 1..64 |-> GB(Mem(GFX + k * 64 + j - 1))], 64)
+LabelRow(k) == Cat([j \in 1..64 |-> GB(Lab(k * 64 + j - 1))], 64)
+PlainRow(base, k) == Cat([j \in 1..128 |-> HB(Mem(base + k * 128 + j - 1))], 128)
+Note(lsb, msb) == HB(lsb % 64) \o H((msb \div 128) * 8 + (msb % 2) * 4 + (lsb \div 64)) \o H((msb \div 2) % 8) \o H((msb \div 16) % 8)
+SfxRow(k) == LET b == SFX + k * 68 IN
+   HB(Mem(b + 64)) \o HB(Mem(b + 65)) \o HB(Mem(b + 66)) \o HB(Mem(b + 67)) \o
+   Cat([j \in 1..32 |-> Note(Mem(b + 2 * (j - 1)), Mem(b + 2 * (j - 1) + 1))], 32)
+MusRow(k) == LET b == MUS + k * 4 b0 == Mem(b) b1 == Mem(b + 1) b2 == Mem(b + 2) b3 == Mem(b + 3) IN
+   HB((b0 \div 128) + 2 * (b1 \div 128) + 4 * (b2 \div 128)) \o " " \o HB(b0 % 128) \o HB(b1 % 128) \o HB(b2 % 128) \o HB(b3 % 128)
+Secs == <<"gfx", "label", "gff", "map", "sfx", "music">>
+NRows(s) == CASE s = "gfx" -> 128 [] s = "label" -> (IF HasLabel THEN 128 ELSE 0) [] s = "gff" -> 2 [] s = "map" -> 32 [] s = "sfx" -> 64 [] s = "music" -> 64
+Exp(s, k) == CASE s = "gfx" -> GfxRow(k) [] s = "label" -> LabelRow(k) [] s = "gff" -> PlainRow(GFF, k)
+              [] s = "map" -> PlainRow(MAPB, k) [] s = "sfx" -> SfxRow(k) [] s = "music" -> MusRow(k)
+Init == tid \in 1..Len(Traces) /\ sec = 0 /\ r = 0 /\ verdict = "run"
+Stop(v) == verdict' = v /\ UNCHANGED <<tid, sec, r>>
+\* ---- C03: what reading the file back must give ----
+CodeNL == IF TR.code = <<>> \/ TR.code[Len(TR.code)] # 10 THEN TR.code \o <<10>> ELSE TR.code
+\* the one bit the music line format has no place for: bit 7 of each pattern's 4th channel byte
+MusicCh4(a) == a >= MUS /\ a < SFX /\ (a - MUS) % 4 = 3
+RbOK == \A d \in 1..Len(TR.rb.diff) : LET a == TR.rb.diff[d][1] v == TR.rb.diff[d][2] IN MusicCh4(a) /\ v = Mem(a) % 128
+Final ==
+  IF TR.focus = "C16" THEN Stop("ok")
+  ELSE IF TR.lua # Encode(CodeNL) THEN Stop("lua-section")
+  ELSE IF ~RbOK THEN Stop("readback-memory")
+  ELSE IF TR.rb.code # CodeNL THEN Stop("readback-code")
+  ELSE IF TR.rb.labelPresent # HasLabel THEN Stop("readback-label-presence")
+  ELSE IF TR.rb.labelDiff # <<>> THEN Stop("readback-label")
+  ELSE IF TR.rb.version # TR.version THEN Stop("readback-version")
+  ELSE IF ~TR.rewriteSame THEN Stop("rewrite-differs")
+  ELSE Stop("ok")
+Step ==
+  /\ verdict = "run"
+  /\ IF sec = 0 THEN
+        (IF TR.header[1] # "pico-8 cartridge // http://www.pico-8.com" THEN Stop("header")
+         ELSE IF TR.header[2] # "version " \o ToString(TR.version) THEN Stop("version-line")
+         ELSE sec' = 1 /\ r' = 0 /\ UNCHANGED <<tid, verdict>>)
+     ELSE IF sec > Len(Secs) THEN Final
+     ELSE LET s == Secs[sec] IN
+       IF r = 0 /\ Len(TR.rows[s]) # NRows(s) THEN Stop("rowcount-" \o s)
+       ELSE IF r >= NRows(s) THEN sec' = sec + 1 /\ r' = 0 /\ UNCHANGED <<tid, verdict>>
+       ELSE IF TR.rows[s][r + 1] # Exp(s, r) THEN Stop("row-" \o s)
+       ELSE r' = r + 1 /\ UNCHANGED <<tid, sec, verdict>>
 Spec == Init /\ [][Step]_vars
 Report == (verdict # "run") => PrintT(<<"VERDICT", tid, verdict, sec, r>>)
 =============================================================================
